@@ -67,7 +67,8 @@ func (w *World) kbUpdate(o *Obs) {
 	kb := w.KB
 
 	// new accounts: registration and OAuth2 sign-up
-	for pid, row := range o.RowsAfter {
+	for _, pid := range sortedRowKeys(o.RowsAfter) {
+		row := o.RowsAfter[pid]
 		if _, ok := o.RowsBefore[pid]; ok || w.acctByPID(pid) >= 0 {
 			continue
 		}
@@ -100,9 +101,9 @@ func (w *World) kbUpdate(o *Obs) {
 		}
 		w.supersede("sms", -1, st.B, to)
 		owner := -1
-		for a, num := range kb.SMSNumber {
-			if num == s.Number && num != "" {
-				owner = a
+		for _, ac := range w.Accts {
+			if num := kb.SMSNumber[ac.N]; num == s.Number && num != "" {
+				owner = ac.N
 			}
 		}
 		kb.addSecret(&Secret{Kind: "sms", Acct: owner, Browser: st.B, Value: s.Code, Number: s.Number, Issued: s.At})
@@ -226,7 +227,8 @@ func (w *World) kbUpdate(o *Obs) {
 	}
 
 	// password changes: belief follows the stored hash
-	for pid, after := range o.RowsAfter {
+	for _, pid := range sortedRowKeys(o.RowsAfter) {
+		after := o.RowsAfter[pid]
 		before := o.RowsBefore[pid]
 		if before == nil || before.Password == after.Password {
 			continue
@@ -285,4 +287,13 @@ func (w *World) kbUpdate(o *Obs) {
 			delete(kb.SMSNumber, a.N)
 		}
 	}
+}
+
+func sortedRowKeys(m map[string]*Row) []string {
+	ks := make([]string, 0, len(m))
+	for k := range m {
+		ks = append(ks, k)
+	}
+	sortStrings(ks)
+	return ks
 }
